@@ -10,7 +10,8 @@
    [visible_preorder] (Spec/TreeVal.v): document order without anything below a metadata element. *)
 From MP Require Import Common.Base Common.Tree Gen.Tables Model.Rule
   Spec.TreeVal Spec.Content Spec.Attr Spec.Lang Model.PyString Model.Evaluate Spec.Recommend
-  Proofs.C01_Main Proofs.C01_Table Proofs.Valid_Char Proofs.C19_Full.
+  Model.Expand Spec.ExpandSpec
+  Proofs.C01_Main Proofs.C01_Table Proofs.Valid_Char Proofs.C19_Full Proofs.C16_Full.
 
 (** Table obligation: every shipped rule has the greedy_ok children shape (C01) and a
     well-formed attribute table (C03) — complete enumeration, re-run on every check. *)
@@ -60,14 +61,14 @@ Print Assumptions valid_tree_char_generic.
     [valid_tree orc t]: validate.tree accepts [view t] and no metadata element has children ... *)
 Theorem C19_exact_of_validation : forall orc t ws,
   validate_tree orc shipped (view t) = Errs [] -> metadata_childless t ->
-  eval_tree eval_dispatch warn_codes None t ws = EOk (ws ++ expected t).
+  eval_tree eval_dispatch warn_codes None t ws = Evaluate.EOk (ws ++ expected t).
 Proof. exact (fun orc t ws V MC => full_validation orc t ws (conj V MC)). Qed.
 Print Assumptions C19_exact_of_validation.
 
 (** ... or, more generally, [deep_valid]: every node, also below metadata, validates on its own. *)
 Theorem C19_exact_of_deep_validity : forall orc t ws,
   (forall d, In d (preorder t) -> node_of orc shipped (view d) = Errs []) ->
-  eval_tree eval_dispatch warn_codes None t ws = EOk (ws ++ expected t).
+  eval_tree eval_dispatch warn_codes None t ws = Evaluate.EOk (ws ++ expected t).
 Proof.
   exact (fun orc t ws H => full_deep orc t ws (fun d Hd => proj1 (valid_node_char_proof orc (view d)) (H d Hd))).
 Qed.
@@ -83,6 +84,51 @@ Print Assumptions C19_shape_of_validation.
     validate.tree, and evaluate.tree reports on the LAST abstract where the table reads the first. *)
 Theorem C19_metadata_condition_needed :
   validate_tree orc_none shipped (view hidden_dataset) = Errs [] /\
-  eval_tree eval_dispatch warn_codes None hidden_dataset [] <> EOk ([] ++ expected hidden_dataset).
+  eval_tree eval_dispatch warn_codes None hidden_dataset [] <> Evaluate.EOk ([] ++ expected hidden_dataset).
 Proof. exact full_needs_hypothesis. Qed.
 Print Assumptions C19_metadata_condition_needed.
+
+(** * C16: a tree that validated before expansion still validates after.
+    This is [C16_valid_full_statement] of Properties/C16.v with its hypotheses adjusted:
+    - the shipped tables instead of arbitrary ones (the statement needs the references shapes
+      C16_table, greedy_ok C01_table, wf attributes C03_table, and that rules allowing a
+      references child are not mixed-content rules — all re-proved by enumeration);
+    - the preconditions of C16_eq ([attrs_wf], [spec_ok], [refs_flat], [ns_agree]);
+    - "governed by the same rule" for EVERY parent holding the references node (ftree values carry
+      no identity, the same value may occur under several parents);
+    - [metadata_childless]: validate.tree does not look below metadata, expansion moves subtrees. *)
+Theorem C16_valid_full : forall orc t t' rem n,
+  attrs_wf t -> spec_ok t = true -> refs_flat t = true -> ns_agree t = true ->
+  metadata_childless t ->
+  (forall p r x, In p (preorder t) -> In r (ft_kids p) -> is_ref r = true -> target t r = Some x ->
+     assoc (ft_name p) node_map = assoc (ft_name x) node_map) ->
+  validate_tree orc shipped (view t) = Errs [] ->
+  expand t = Expand.EOk t' rem n ->
+  validate_tree orc shipped (view t') = Errs [].
+Proof. exact expand_preserves_validation. Qed.
+Print Assumptions C16_valid_full.
+
+(** without the restriction on metadata, for deep validity (every node, also below metadata,
+    validates on its own; no references node directly below a metadata element) *)
+Theorem C16_valid_deep : forall orc t t' rem n,
+  attrs_wf t -> spec_ok t = true -> refs_flat t = true -> ns_agree t = true ->
+  (forall p, In p (preorder t) -> is_metadata (ft_name p) = true -> existsb is_ref (ft_kids p) = false) ->
+  (forall p r x, In p (preorder t) -> In r (ft_kids p) -> is_ref r = true -> target t r = Some x ->
+     assoc (ft_name p) node_map = assoc (ft_name x) node_map) ->
+  (forall d, In d (preorder t) -> node_of orc shipped (view d) = Errs []) ->
+  expand t = Expand.EOk t' rem n ->
+  forall d', In d' (preorder t') -> node_of orc shipped (view d') = Errs [].
+Proof. exact expand_preserves_deep_validity. Qed.
+Print Assumptions C16_valid_deep.
+
+(** the hypotheses are jointly satisfiable: a project whose second personnel refers to the first *)
+Theorem C16_valid_full_nonvacuous :
+  attrs_wf exv /\ spec_ok exv = true /\ refs_flat exv = true /\ ns_agree exv = true /\
+  metadata_childless exv /\
+  (forall p r x, In p (preorder exv) -> In r (ft_kids p) -> is_ref r = true -> target exv r = Some x ->
+     assoc (ft_name p) node_map = assoc (ft_name x) node_map) /\
+  validate_tree orc_none shipped (view exv) = Errs [] /\
+  exists t' rem n, expand exv = Expand.EOk t' rem n /\
+                   map ft_name (ft_kids (nth 2 (ft_kids t') exv)) = [s "organizationName"; s "role"; s "role"].
+Proof. exact exv_hypotheses. Qed.
+Print Assumptions C16_valid_full_nonvacuous.
